@@ -65,6 +65,7 @@ type realRun struct {
 type diffBase struct {
 	base   types.EnvType
 	tracer *hx.Tracer
+	ended  bool // evaluate under a context that was cancelled before the evaluation started (C18)
 }
 
 func newDiffBase() *diffBase {
@@ -80,6 +81,9 @@ func (b *diffBase) runReal(ast types.MalType) realRun {
 	e := hx.Sub(b.base)
 	ctx, cancel := context.WithTimeout(context.Background(), 20*time.Second)
 	defer cancel()
+	if b.ended {
+		cancel()
+	}
 	o := hx.Eval(ctx, ast, e)
 	rr := realRun{Err: o.Err, Panicked: o.Panicked, PanicMsg: o.PanicMsg, Site: o.Site, Stack: o.Stack, Trace: b.tracer.Snapshot(), Env: e}
 	if o.Panicked {
